@@ -217,6 +217,7 @@ class State:
         self.symfields = {}    # (sym id, field) -> Val   lazily materialised fields of opaque structs
         self.refine = {}       # sym id -> Val (a Sym refined to a concrete shape)
         self.visits = {}
+        self.eqs = []          # affine expressions known to be zero (multi-symbol equalities)
 
     def clone(self):
         s = State()
@@ -231,6 +232,7 @@ class State:
         s.symfields = dict(self.symfields)
         s.refine = dict(self.refine)
         s.visits = dict(self.visits)
+        s.eqs = list(self.eqs)
         return s
 
     def new_cell(self, v):
@@ -268,9 +270,10 @@ class Outcome:
 
 
 class Frame:
-    def __init__(self, body, view):
+    def __init__(self, body, view, consts=None):
         self.body = body
         self.view = view
+        self.consts = consts or {}
         self.cells = []
         self.block = 0
         self.stmt = 0
@@ -477,6 +480,8 @@ class Interp:
                     return outs[0][2]
             return Sym("const " + M.short(op.get("uneval_inst", op["uneval"])), ty)
         if "param" in op:
+            if op["param"] in fr.consts:
+                return Aff(fr.consts[op["param"]], ty=ty)
             return Aff.sym(op["param"], ty)
         if op.get("zst"):
             if ty.startswith("core::marker::PhantomData"):
@@ -569,7 +574,11 @@ class Interp:
                 return Seq("array", Aff(n), [v] * n, kind="array")
             if n is not None:
                 return Seq("array", Aff(n), None, kind="array")
-            return Seq("array", Aff.sym(rv.get("count_param", "N")), None, kind="array", attrs={"fill": v})
+            cp = rv.get("count_param", "N")
+            if cp in fr.consts:
+                n = fr.consts[cp]
+                return Seq("array", Aff(n), [v] * n if n <= 4096 else None, kind="array")
+            return Seq("array", Aff.sym(cp), None, kind="array", attrs={"fill": v})
         return Top(k)
 
     def binop(self, st, op, a, b):
@@ -631,6 +640,10 @@ class Interp:
 
     def compare(self, st, op, a, b):
         d = a.sub(b)   # a - b
+        for e in st.eqs:
+            if d.key() == e.key() or d.key() == e.neg().key():
+                d = Aff(0)
+                break
         lo, hi = st.range_of(d)
         def decided(cond_true, cond_false):
             if cond_true:
@@ -692,6 +705,8 @@ class Interp:
             return False
         if op == "Eq" and (lo > 0 or hi < 0):
             return False
+        if op == "Eq" and len(d.terms) > 1:
+            st.eqs.append(d)
         if len(d.terms) == 1:
             (s, c), = d.terms.items()
             l, h = st.bound(s)
@@ -725,13 +740,13 @@ class Interp:
         return True
 
     # -- execution --------------------------------------------------------------------
-    def _call_body(self, st, body, args, depth, fork_ok=True):
+    def _call_body(self, st, body, args, depth, fork_ok=True, consts=None):
         """generator of (state, kind, value)"""
         if depth > self.max_depth and depth < 90:
             yield st, "return", Top("depth")
             return
         view = M.view(self.facts, body)
-        fr = Frame(body, view)
+        fr = Frame(body, view, consts)
         for i, l in enumerate(body["locals"]):
             fr.cells.append(st.new_cell(None))
         for i, a in enumerate(args):
@@ -970,6 +985,11 @@ class Interp:
         info = {"name": name, "tdef": tdef, "def": rdef, "gargs": c.get("gargs", []), "ln": t["ln"], "fn": fr.body["id"], "file": fr.view.file(), "term": t}
         # crate-local body?
         body = self.facts.bodies.get(rdef)
+        if body is None and "resolved" not in c and c.get("trait") and args:
+            # trait method on a type parameter of a generic body: dispatch on the run-time shape of the receiver
+            dyn = self.dyn_dispatch(st, c, args[0])
+            if dyn is not None:
+                return list(self._call_body(st, dyn, args, depth + 1))
         for sp in self.stubs:
             if sp.search(rdef) or sp.search(name):
                 from . import models as _MD
@@ -982,9 +1002,54 @@ class Interp:
                 if r is not None:
                     return r
         if body is not None and c.get("resolved_local", c.get("local")):
-            return list(self._call_body(st, body, args, depth + 1))
+            return list(self._call_body(st, body, args, depth + 1, consts=self.bind_consts(body, c, fr)))
         st.unmodelled.append(M.short(name))
         return [(st, "return", Top("unmodelled " + M.short(tdef)))]
+
+    def dyn_dispatch(self, st, c, recv):
+        v = self.resolve(st, recv)
+        guard = 0
+        while isinstance(v, Ptr) and guard < 6:
+            v = self.resolve(st, self.load(st, v))
+            guard += 1
+        if not (isinstance(v, Struct) and v.adt.startswith("crate::")):
+            return None
+        name = c["def"].split("::")[-1]
+        trait = c["trait"]
+        cands = []
+        for b in self.facts.bodies.values():
+            if b.get("kind") == "AssocFn" and b.get("name") == name and (b.get("impl_trait") or "").split("<")[0] == trait and re.match(re.escape(v.adt) + r"(<|$)", b.get("impl_self", "")):
+                cands.append(b)
+        if len(cands) == 1:
+            return cands[0]
+        # several impls for different type arguments: choose by the expected output type when it is spelled in the generic args
+        want = " ".join(c.get("gargs", [])[1:])
+        for b in cands:
+            if want and want in (b.get("impl_trait") or ""):
+                return b
+        return None
+
+    def bind_consts(self, body, c, fr):
+        """values of the callee's const generic parameters at this call (from the instantiated name), else inherited symbols"""
+        names = [g["name"] for g in body.get("impl_generics", []) + body.get("generics", []) if g["kind"] == "const"]
+        if not names:
+            return None
+        inst = M.decode_typenum(c.get("resolved_inst") or c.get("inst") or "")
+        nums = [g for g in c.get("gargs", []) if re.fullmatch(r"\d+", g)]
+        out = {}
+        if len(nums) == len(names):
+            out = {n: int(v) for n, v in zip(names, nums)}
+        elif len(names) == 1:
+            found = set(re.findall(r"Key<(\d+)>|Key::<(\d+)>", inst))
+            vals = set(x for tup in found for x in tup if x)
+            if len(vals) == 1:
+                out = {names[0]: int(vals.pop())}
+            else:
+                m = re.findall(r"Key<([A-Z]+)>|Key::<([A-Z]+)>", inst)
+                syms = set(x for tup in m for x in tup if x)
+                if len(syms) == 1 and list(syms)[0] in fr.consts:
+                    out = {names[0]: fr.consts[list(syms)[0]]}
+        return out or None
 
     def call_value(self, st, f, args, depth, t=None):
         """call a closure / fn item value with the already evaluated argument tuple"""
